@@ -54,33 +54,51 @@ def replay_path_batch(case):
                                  if nm[0] not in {c[0][0] for c in chans}][:20] +
                                 [ChannelObject(nm[0], nm[1], np.array([i, i + 1], dtype=np.int32), {"id": "c%d" % i})
                                  for i, (nm, _) in enumerate(chans)])
-            f = TdmsFile.read(io.BytesIO(buf.getvalue()))
-            for i, (nm, path) in enumerate(chans):
-                n += 1
-                probs = []
-                try:
-                    ch = f[nm[0]][nm[1]]
-                    if ch.name != nm[1] or ch.group_name != nm[0] or ch.path != path:
-                        probs.append("reported (%r, %r, %r)" % (ch.group_name, ch.name, ch.path))
-                    if list(ch[:]) != [i, i + 1] or ch.properties.get("id") != "c%d" % i:
-                        probs.append("aliased: data %r id %r" % (list(ch[:]), ch.properties.get("id")))
-                    if f[nm[0]].name != nm[0]:
-                        probs.append("group name %r" % f[nm[0]].name)
-                except Exception as ex:  # noqa
-                    probs.append("%s: %s" % (type(ex).__name__, ex))
-                if probs:
-                    fails.append(({"kind": "path", "level": "end-to-end"}, {"names": nm, "path": path, "problems": probs}))
-            total = sum(len(g.channels()) for g in f.groups())
-            if total != len(chans):
-                fails.append(({"kind": "path", "level": "end-to-end-count"},
-                              {"expected_channels": len(chans), "observed": total}))
-            if len({nm[0] for nm, _ in chans}) > len(f.groups()):
-                fails.append(({"kind": "path", "level": "end-to-end-groups"}, {"observed_groups": len(f.groups())}))
+            _check_file(TdmsFile.read(io.BytesIO(buf.getvalue())), chans, "end-to-end", fails)
+            n += len(chans)
+            # a streaming producer: ONE GroupObject and ONE ChannelObject, renamed and refilled for every segment
+            sub = chans[:10]
+            buf2 = io.BytesIO()
+            gt = ct = None
+            with TdmsWriter(buf2) as w:
+                for i, (nm, _) in enumerate(sub):
+                    data = np.array([i, i + 1], dtype=np.int32)
+                    if ct is None:
+                        gt = GroupObject(nm[0], {"seen": i})
+                        ct = ChannelObject(nm[0], nm[1], data, {"id": "c%d" % i})
+                    else:
+                        gt.group, gt.properties = nm[0], {"seen": i}
+                        ct.group, ct.channel, ct.data, ct.properties = nm[0], nm[1], data, {"id": "c%d" % i}
+                    w.write_segment([gt, ct])
+            _check_file(TdmsFile.read(io.BytesIO(buf2.getvalue())), sub, "end-to-end-reused-objects", fails)
+            n += len(sub)
         except Exception as ex:  # noqa
             fails.append(({"kind": "path", "level": "end-to-end-file", "exception": type(ex).__name__},
                           {"exception": "%s: %s" % (type(ex).__name__, ex), "names": [c[0] for c in chans][:5]}))
     keys = [zlib.crc32(p.encode("utf-8", "surrogatepass")) for _, p in items if p != "/"]
     return {"n": n, "keys": keys, "fails": fails, "validated": len(items)}
+
+
+def _check_file(f, chans, level, fails):
+    for i, (nm, path) in enumerate(chans):
+        probs = []
+        try:
+            ch = f[nm[0]][nm[1]]
+            if ch.name != nm[1] or ch.group_name != nm[0] or ch.path != path:
+                probs.append("reported (%r, %r, %r)" % (ch.group_name, ch.name, ch.path))
+            if list(ch[:]) != [i, i + 1] or ch.properties.get("id") != "c%d" % i:
+                probs.append("aliased: data %r id %r" % (list(ch[:]), ch.properties.get("id")))
+            if f[nm[0]].name != nm[0]:
+                probs.append("group name %r" % f[nm[0]].name)
+        except Exception as ex:  # noqa
+            probs.append("%s: %s" % (type(ex).__name__, ex))
+        if probs:
+            fails.append(({"kind": "path", "level": level}, {"names": nm, "path": path, "problems": probs}))
+    total = sum(len(g.channels()) for g in f.groups())
+    if total != len(chans):
+        fails.append(({"kind": "path", "level": level + "-count"}, {"expected_channels": len(chans), "observed": total}))
+    if len({nm[0] for nm, _ in chans}) > len(f.groups()):
+        fails.append(({"kind": "path", "level": level + "-groups"}, {"observed_groups": len(f.groups())}))
 
 
 POOL = ["'", "/", " ", "a", "b", "é", "e\u0301", "\u2126", "\uf900", "中", "\U0001F600", "́", "\\", "\"", "\t", ".", "''", "/'", "ß"]
